@@ -144,8 +144,8 @@ theorem positionStep_inv (t t' : Table) (c : String) (id : Nat) (h : t.Inv)
         obtain ⟨hi, hn⟩ := swapOrder_inv t t1 c id (a + 1) h hc h1
         exact ⟨⟨hi.cols, hi.idxs, hi.fks⟩, hn⟩
 
-theorem addColumn_inv (t t' : Table) (col : Column) (mysql : Bool) (h : t.Inv)
-    (hs : t.addColumn col mysql = .ok t') : t'.Inv ∧ t'.name = t.name := by
+theorem addColumn_inv (t t' : Table) (col : Column) (mysql : Bool) {pg : Bool} (h : t.Inv)
+    (hs : t.addColumn col mysql pg = .ok t') : t'.Inv ∧ t'.name = t.name := by
   unfold addColumn at hs
   cases hg : t.colIdx.get? col.name with
   | none =>
